@@ -26,50 +26,6 @@ theorem u64_wrapping_add_exact : ∀ (vm : Vm) (bh bl ah al : Nat) (rest : List 
       .ok ((u64of ah al + u64of bh bl) % two64 / two32 :: (u64of ah al + u64of bh bl) % two32 :: rest) := by
   u64_tac Generated.u64_wrapping_add
 
-/-- `wrapping_sub`: `c = (a - b) mod 2^64`. -/
-theorem u64_wrapping_sub_exact : ∀ (vm : Vm) (bh bl ah al : Nat) (rest : List Nat),
-    vm.stack = bh :: bl :: ah :: al :: rest → bh < two32 → bl < two32 → ah < two32 → al < two32 →
-    16 ≤ rest.length →
-    stackRun Generated.u64_wrapping_sub vm =
-      .ok ((u64of ah al + two64 - u64of bh bl) % two64 / two32
-            :: (u64of ah al + two64 - u64of bh bl) % two32 :: rest) := by
-  u64_tac Generated.u64_wrapping_sub
-
-/-- `overflowing_sub`: `[borrow, c_hi, c_lo]`, `borrow = 1` iff `a < b`. -/
-theorem u64_overflowing_sub_exact : ∀ (vm : Vm) (bh bl ah al : Nat) (rest : List Nat),
-    vm.stack = bh :: bl :: ah :: al :: rest → bh < two32 → bl < two32 → ah < two32 → al < two32 →
-    16 ≤ rest.length →
-    stackRun Generated.u64_overflowing_sub vm =
-      .ok ((if u64of ah al < u64of bh bl then 1 else 0)
-            :: (u64of ah al + two64 - u64of bh bl) % two64 / two32
-            :: (u64of ah al + two64 - u64of bh bl) % two32 :: rest) := by
-  u64_tac Generated.u64_overflowing_sub
-
-/-- `lt`: 1 iff `a < b` as 64-bit integers. -/
-theorem u64_lt_exact : ∀ (vm : Vm) (bh bl ah al : Nat) (rest : List Nat),
-    vm.stack = bh :: bl :: ah :: al :: rest → bh < two32 → bl < two32 → ah < two32 → al < two32 →
-    16 ≤ rest.length →
-    stackRun Generated.u64_lt vm = .ok ((if u64of ah al < u64of bh bl then 1 else 0) :: rest) := by
-  u64_tac Generated.u64_lt
-
-theorem u64_gt_exact : ∀ (vm : Vm) (bh bl ah al : Nat) (rest : List Nat),
-    vm.stack = bh :: bl :: ah :: al :: rest → bh < two32 → bl < two32 → ah < two32 → al < two32 →
-    16 ≤ rest.length →
-    stackRun Generated.u64_gt vm = .ok ((if u64of ah al > u64of bh bl then 1 else 0) :: rest) := by
-  u64_tac Generated.u64_gt
-
-theorem u64_lte_exact : ∀ (vm : Vm) (bh bl ah al : Nat) (rest : List Nat),
-    vm.stack = bh :: bl :: ah :: al :: rest → bh < two32 → bl < two32 → ah < two32 → al < two32 →
-    16 ≤ rest.length →
-    stackRun Generated.u64_lte vm = .ok ((if u64of ah al ≤ u64of bh bl then 1 else 0) :: rest) := by
-  u64_tac Generated.u64_lte
-
-theorem u64_gte_exact : ∀ (vm : Vm) (bh bl ah al : Nat) (rest : List Nat),
-    vm.stack = bh :: bl :: ah :: al :: rest → bh < two32 → bl < two32 → ah < two32 → al < two32 →
-    16 ≤ rest.length →
-    stackRun Generated.u64_gte vm = .ok ((if u64of ah al ≥ u64of bh bl then 1 else 0) :: rest) := by
-  u64_tac Generated.u64_gte
-
 theorem u64_eq_exact : ∀ (vm : Vm) (bh bl ah al : Nat) (rest : List Nat),
     vm.stack = bh :: bl :: ah :: al :: rest → bh < two32 → bl < two32 → ah < two32 → al < two32 →
     16 ≤ rest.length →
@@ -86,18 +42,18 @@ theorem u64_neq_exact : ∀ (vm : Vm) (bh bl ah al : Nat) (rest : List Nat),
 theorem u64_and_exact : ∀ (vm : Vm) (bh bl ah al : Nat) (rest : List Nat),
     vm.stack = bh :: bl :: ah :: al :: rest → bh < two32 → bl < two32 → ah < two32 → al < two32 →
     16 ≤ rest.length →
-    stackRun Generated.u64_and vm = .ok (Nat.land ah bh :: Nat.land al bl :: rest) := by
+    stackRun Generated.u64_and vm = .ok (Nat.land bh ah :: Nat.land bl al :: rest) := by
   u64_tac Generated.u64_and
 
 theorem u64_xor_exact : ∀ (vm : Vm) (bh bl ah al : Nat) (rest : List Nat),
     vm.stack = bh :: bl :: ah :: al :: rest → bh < two32 → bl < two32 → ah < two32 → al < two32 →
     16 ≤ rest.length →
-    stackRun Generated.u64_xor vm = .ok (Nat.xor ah bh :: Nat.xor al bl :: rest) := by
+    stackRun Generated.u64_xor vm = .ok (Nat.xor bh ah :: Nat.xor bl al :: rest) := by
   u64_tac Generated.u64_xor
 
 -- Non-vacuity: the hypotheses are met by a concrete state and the procedure really runs.
-example : stackRun Generated.u64_overflowing_add
-    { stack := [4294967295, 4294967295, 0, 1] ++ List.replicate 16 9 }
-    = .ok ([1, 0, 0] ++ List.replicate 16 9) := by decide
+example : (stackRun Generated.u64_overflowing_add
+    { stack := [4294967295, 4294967295, 0, 1] ++ List.replicate 16 9 }).toOption
+    = some ([1, 0, 0] ++ List.replicate 16 9) := by decide
 
 end Miden.C16
